@@ -308,6 +308,36 @@ func (w *dstW) Tag(ctx context.Context, d ocispec.Descriptor, ref string) error 
 	return err
 }
 
+// dstMountW adds Mount (registry.Mounter): with CopyGraphOptions.MountFrom the library first asks the destination to
+// mount a blob from another repository and copies it only when that fails.
+type dstMountW struct {
+	*dstW
+	m registry.Mounter
+}
+
+func (w *dstMountW) Mount(ctx context.Context, d ocispec.Descriptor, fromRepo string, getContent func() (io.ReadCloser, error)) error {
+	n := w.e.g.NodeOf(d)
+	w.e.tr.Emit(map[string]any{"e": "mountB", "n": n, "from": fromRepo})
+	w.e.s.Gate("mount", n)
+	if err := ctx.Err(); err != nil {
+		w.e.ctxFail()
+		w.e.tr.Emit(map[string]any{"e": "mountE", "n": n, "r": "ctx", "has": w.has(), "fellback": false})
+		return err
+	}
+	if _, armed := w.e.take("mount", n); armed {
+		w.e.tr.Emit(map[string]any{"e": "mountE", "n": n, "r": "fault", "has": w.has(), "fellback": false})
+		return ErrInjected
+	}
+	fellback := false
+	err := w.m.Mount(ctx, d, fromRepo, func() (io.ReadCloser, error) {
+		fellback = true
+		return getContent()
+	})
+	w.e.tr.Emit(map[string]any{"e": "mountE", "n": n, "r": cls(err), "has": w.has(), "fellback": fellback})
+	w.e.after()
+	return err
+}
+
 // dstRefW adds PushReference, which makes oras.Copy take the ReferencePusher path.
 type dstRefW struct{ *dstW }
 
